@@ -1,0 +1,64 @@
+//go:build verif
+
+// Contracts for package gnet, checked by /verif/gvc (see /verif/DESIGN.md).
+// This file contains no code; the default build never sees it.
+
+package gnet
+
+// ---------------------------------------------------------------------------------------------
+// C15: load balancing
+//
+// lbwf: the balancer knows size loops and loop i carries index i.
+//@ pred lbwf(lb *baseLoadBalancer) := lb != nil && lb.size == len(lb.eventLoops) && 1 <= lb.size &&
+//@     (forall i :: 0 <= i && i < lb.size ==> lb.eventLoops[i] != nil && lb.eventLoops[i].idx == i)
+//@ pure conns(el *eventloop) := el.connections.connCount
+//
+//@ func (lb *baseLoadBalancer) register(el *eventloop)
+//@   requires lb != nil && el != nil && lb.size == len(lb.eventLoops) && 0 <= lb.size
+//@   requires forall i :: 0 <= i && i < lb.size ==> lb.eventLoops[i] != nil && lb.eventLoops[i].idx == i && lb.eventLoops[i] != el
+//@   modifies el.idx, lb.eventLoops, lb.size, memcap(lb.eventLoops)
+//@   ensures lbwf(lb) && lb.size == old(lb.size) + 1 && lb.eventLoops[old(lb.size)] == el
+//@   ensures forall i :: 0 <= i && i < old(lb.size) ==> lb.eventLoops[i] == old(lb.eventLoops[i])
+//
+//@ func (lb *baseLoadBalancer) index(i int) *eventloop
+//@   requires lbwf(lb) && 0 <= i
+//@   ensures i < lb.size ==> res == lb.eventLoops[i]
+//@   ensures i >= lb.size ==> res == nil
+//
+//@ func (lb *baseLoadBalancer) len() int
+//@   requires lb != nil
+//@   ensures res == lb.size
+//
+// Round-Robin: the pick is the successor (mod N) of the previous pick.
+//@ func (lb *roundRobinLoadBalancer) next(a net.Addr) (el *eventloop)
+//@   requires lb != nil && lbwf(lb.baseLoadBalancer) && lb.nextIndex < 18446744073709551615
+//@   modifies lb.nextIndex
+//@   ensures el == lb.eventLoops[old(lb.nextIndex) % uint64(lb.size)] && el != nil && 0 <= el.idx && el.idx < lb.size
+//@   ensures el.idx == old(lb.nextIndex) % uint64(lb.size)
+//@   ensures lb.nextIndex == old(lb.nextIndex) + 1
+//
+// Least-Connections: a registered loop whose connection count (as read) is minimal.
+//@ func (lb *leastConnectionsLoadBalancer) next(a net.Addr) (el *eventloop)
+//@   requires lb != nil && lbwf(lb.baseLoadBalancer)
+//@   ensures el != nil && 0 <= el.idx && el.idx < lb.size && el == lb.eventLoops[el.idx]
+//@   ensures forall j :: 0 <= j && j < lb.size ==> conns(el) <= conns(lb.eventLoops[j])
+//@   loop 1:
+//@     invariant -1 <= rangeindex && rangeindex + 1 < lb.size && lb == lb$0
+//@     invariant el != nil && 0 <= el.idx && el.idx < lb.size && el == lb.eventLoops[el.idx] && minN == conns(el)
+//@     invariant forall j :: 0 <= j && j <= rangeindex + 1 ==> minN <= conns(lb.eventLoops[j])
+//
+// Source-Addr-Hash: a pure function of the address text, always in range.
+//@ func (lb *sourceAddrHashLoadBalancer) hash(s string) int
+//@   ensures 0 <= res && res <= 4294967295
+//@   ensures res == crc32ieee(content(s))
+//
+//@ func (lb *sourceAddrHashLoadBalancer) next(netAddr net.Addr) *eventloop
+//@   requires lb != nil && lbwf(lb.baseLoadBalancer) && netAddr != nil
+//@   ensures res == lb.eventLoops[crc32ieee(addrtext[ref(netAddr)]) % lb.size]
+//@   ensures res != nil && 0 <= res.idx && res.idx < lb.size
+//
+// Consecutive Round-Robin picks are cyclic successors (lemma over the contract of next).
+//@ func lemmaRoundRobinCyclic(lb *roundRobinLoadBalancer) (a, b *eventloop)
+//@   requires lb != nil && lbwf(lb.baseLoadBalancer) && lb.nextIndex < 18446744073709551614
+//@   modifies lb.nextIndex
+//@   ensures b.idx == (a.idx + 1) % lb.size
